@@ -78,9 +78,35 @@ def mutants(args, C, todo=None):
     print('mutants: %d of %d detected' % (len(todo) - len(missed), len(todo)))
     return 1 if missed else 0
 
+def harmless(args, C):
+    """changes that keep every property: each check must stay quiet (exit 0) on them"""
+    bad = []
+    diffs = sorted(glob.glob(os.path.join(C.ROOT, 'sim', 'harmless', '*.diff')))
+    props = [a for a in args if a in C.PROPS] or sorted(C.PROPS)
+    for d in diffs:
+        scratch = tempfile.mkdtemp(prefix='verif-harmless-', dir='/tmp')
+        try:
+            shutil.copytree(os.path.join(C.REPO, 'include'), os.path.join(scratch, 'include'))
+            r = subprocess.run(['patch', '-p1', '-s', '-d', scratch, '-i', d], capture_output=True, text=True)
+            if r.returncode != 0:
+                print('HARMLESS %-40s patch does not apply: %s' % (os.path.basename(d), r.stdout[-200:])); bad.append(d); continue
+            for prop in props:
+                env = dict(os.environ, VERIF_REPO=scratch, VERIF_BUILD=os.path.join(scratch, 'build'), VERIF_OUT=os.path.join(scratch, 'out'), VERIF_SECONDS=os.environ.get('VERIF_SECONDS', '14'))
+                r = subprocess.run([os.path.join(C.ROOT, 'check'), prop, 'quick'], capture_output=True, text=True, errors='replace', env=env)
+                ok = r.returncode == 0 and 'VIOLATION' not in r.stdout
+                print('HARMLESS %-40s %s %s rc=%d' % (os.path.basename(d), prop, 'quiet' if ok else 'ALARM', r.returncode), flush=True)
+                if not ok:
+                    bad.append((d, prop)); print(r.stderr[-1500:])
+        finally:
+            shutil.rmtree(scratch, ignore_errors=True)
+    print('harmless changes: %d alarm(s)' % len(bad))
+    return 1 if bad else 0
+
 def main(args, C):
     if not args:
         print(__doc__); return 2
+    if args[0] == 'harmless':
+        return harmless(args[1:], C)
     if args[0] == 'determinism':
         return determinism(args[1:], C)
     if args[0] == 'mutants':
